@@ -105,7 +105,7 @@ def cases(tier, seed, i, n):
             for seq in (['text'], ['ping'], ['close'], ['text', 'close'], ['ping', 'text'], ['frag', 'drip'], ['drip']):
                 for op in ('sendall', 'recv'):
                     for k in (1, 2, 3):
-                        for fk in ('reset', 'timeout', 'runtime', 'reset-braces'):
+                        for fk in ('reset', 'timeout', 'runtime', 'reset-braces', 'eintr-partial'):
                             yield dict(kind='hist', hs=hs, seq=seq, seg='perstep', faults=[[op, k, fk]])
         for c in connect_phase_cases():
             yield c
